@@ -44,7 +44,8 @@ def _max_size(si):
     return None
 
 
-def make_cases(chk, r, n_random, testdata=TESTDATA, corpus_prop=None, null_order_modules=0, dist=None):
+def make_cases(chk, r, n_random, testdata=TESTDATA, corpus_prop=None, null_order_modules=0, dist=None,
+               logic_probes=False):
     """testdata + corpus first, then random modules.  Rejected random modules are counted."""
     cases = []
     for fn in testdata:
@@ -66,7 +67,7 @@ def make_cases(chk, r, n_random, testdata=TESTDATA, corpus_prop=None, null_order
     made = 0
     while made < n_random and tries < n_random * 3:
         tries += 1
-        m = embgen.gen_module(r, default_byte_order=made >= null_order_modules)
+        m = embgen.gen_module(r, default_byte_order=made >= null_order_modules, logic_probes=logic_probes)
         c = Case("random/%d" % made, m.text, gen=m)
         cases.append(c)
         made += 1
